@@ -21,10 +21,13 @@ import Chrono.Proofs.ParsedTsCompleteL
 import Chrono.Proofs.ParsedZFieldsL
 import Chrono.Proofs.ParsedKindsL
 import Chrono.Proofs.ParsedLeapTsL
+import Chrono.Proofs.ParsedIsoSpecL
+import Chrono.Proofs.ParsedSettersL
 
 namespace Chrono.Props.C14
 open Chrono Chrono.M Chrono.Spec Chrono.Spec.Fields Chrono.Spec.Ts Chrono.Proofs Chrono.Proofs.ParsedRes Chrono.Extracted
 open Chrono.Proofs.ParsedZone Chrono.M.TzL Chrono.Proofs.ParsedZF Chrono.Proofs.ParsedKinds Chrono.Proofs.ParsedLeap
+open Chrono.Proofs.ParsedIsoSpec Chrono.Proofs.ParsedSetters Chrono.Spec.Strftime
 
 attribute [local instance] exceptDecEq
 
@@ -1298,6 +1301,223 @@ example :
       = .ok (.ok ⟨dateOfYo 262142 365, ⟨86399, 1000000000⟩⟩) ∧
     Parsed.to_naive_datetime_with_offset { timestamp := some 8210266876800, second := some 60 } 0
       = .ok (.error .outOfRange) := by
+  decide +kernel
+
+/-! ### LOW gaps of the audit: ISO fields through the calendar specification, setters, empty record -/
+
+/-- `date_sound` with the ISO-week fields read off the CALENDAR specification (`isoYear` / `isoWeek`
+of Spec/StrftimeSpec.lean: year and week number of the Thursday of the day's Monday-based week)
+instead of the model's `iso_week` accessor: a successful result agrees with every supplied date field
+in the sense of `DateAgreesSpec`.  (The two readings coincide by C12's `iso_week_spec`.) -/
+theorem date_sound_spec (p : Parsed) (hp : InType p) (d : Date)
+    (h : Parsed.to_naive_date p = .ok (.ok d)) :
+    ∃ Y o, VD Y o ∧ d = dateOfYo Y o ∧ DateAgreesSpec p Y o := by
+  obtain ⟨Y, o, hvd, hd, hag⟩ := date_sound p hp d h
+  exact ⟨Y, o, hvd, hd, (dateAgrees_iff_spec p Y o hvd).mp hag⟩
+
+/-- `date_complete` likewise: agreement and determinacy of the ISO year group stated against the
+calendar specification's ISO year -/
+theorem date_complete_spec (p : Parsed) (hp : InType p) (Y : Int) (o : Nat) (hvd : VD Y o)
+    (hag : DateAgreesSpec p Y o)
+    (hdY : GroupDeterminate p.year p.year_div_100 p.year_mod_100 Y)
+    (hdI : GroupDeterminate p.isoyear p.isoyear_div_100 p.isoyear_mod_100 (isoYear Y o))
+    (hc : UsesCalendar p ∨ UsesIso p) :
+    Parsed.to_naive_date p = .ok (.ok (dateOfYo Y o)) :=
+  date_complete p hp Y o hvd ((dateAgrees_iff_spec p Y o hvd).mpr hag) hdY
+    (fun w hw => by rw [iso_year_of Y o hvd w hw]; exact hdI) hc
+
+/-- non-vacuity: 2021-01-01 lies in ISO week 53 of ISO year 2020 by the calendar specification, and
+the ISO combination resolves to it -/
+example : isoYear 2021 1 = 2020 ∧ isoWeek 2021 1 = 53 ∧
+    IsoIsSpec { isoyear := some 2020, isoweek := some 53, weekday := some .fri } 2021 1 ∧
+    Parsed.to_naive_date { isoyear := some 2020, isoweek := some 53, weekday := some .fri }
+      = .ok (.ok (dateOfYo 2021 1)) := by
+  refine ⟨by decide, by decide, ⟨?_, ⟨?_, ?_⟩, ?_⟩, by decide +kernel⟩
+  · intro x h; cases h; decide
+  · intro x h; cases h
+  · intro x h; cases h
+  · intro x h; cases h; decide
+
+/-- ALL 20 integer-valued setters against the ranges re-extracted from src/format/parsed.rs on every
+run (Extracted/Setters.lean), for EVERY prior record and EVERY integer argument (negative values and
+the `i64` extremes included): outside the range OUT_OF_RANGE; inside, accepted iff the field is unset
+or already holds that value, storing it (for `set_hour12`: `v % 12`, i.e. 12 ↦ 0) and changing nothing
+else; otherwise IMPOSSIBLE (`SetterSpec`).  `set_timestamp` has no range; `set_hour` stores `v / 12`
+and `v % 12`. -/
+theorem setter_ranges :
+    SetterSpec SET_RANGE_year.1 SET_RANGE_year.2 (·.year) id Parsed.set_year (fun p f => { p with year := f }) ∧
+    SetterSpec SET_RANGE_year_div_100.1 SET_RANGE_year_div_100.2 (·.year_div_100) id Parsed.set_year_div_100
+      (fun p f => { p with year_div_100 := f }) ∧
+    SetterSpec SET_RANGE_year_mod_100.1 SET_RANGE_year_mod_100.2 (·.year_mod_100) id Parsed.set_year_mod_100
+      (fun p f => { p with year_mod_100 := f }) ∧
+    SetterSpec SET_RANGE_isoyear.1 SET_RANGE_isoyear.2 (·.isoyear) id Parsed.set_isoyear
+      (fun p f => { p with isoyear := f }) ∧
+    SetterSpec SET_RANGE_isoyear_div_100.1 SET_RANGE_isoyear_div_100.2 (·.isoyear_div_100) id
+      Parsed.set_isoyear_div_100 (fun p f => { p with isoyear_div_100 := f }) ∧
+    SetterSpec SET_RANGE_isoyear_mod_100.1 SET_RANGE_isoyear_mod_100.2 (·.isoyear_mod_100) id
+      Parsed.set_isoyear_mod_100 (fun p f => { p with isoyear_mod_100 := f }) ∧
+    SetterSpec SET_RANGE_quarter.1 SET_RANGE_quarter.2 (·.quarter) id Parsed.set_quarter
+      (fun p f => { p with quarter := f }) ∧
+    SetterSpec SET_RANGE_month.1 SET_RANGE_month.2 (·.month) id Parsed.set_month
+      (fun p f => { p with month := f }) ∧
+    SetterSpec SET_RANGE_week_from_sun.1 SET_RANGE_week_from_sun.2 (·.week_from_sun) id Parsed.set_week_from_sun
+      (fun p f => { p with week_from_sun := f }) ∧
+    SetterSpec SET_RANGE_week_from_mon.1 SET_RANGE_week_from_mon.2 (·.week_from_mon) id Parsed.set_week_from_mon
+      (fun p f => { p with week_from_mon := f }) ∧
+    SetterSpec SET_RANGE_isoweek.1 SET_RANGE_isoweek.2 (·.isoweek) id Parsed.set_isoweek
+      (fun p f => { p with isoweek := f }) ∧
+    SetterSpec SET_RANGE_ordinal.1 SET_RANGE_ordinal.2 (·.ordinal) id Parsed.set_ordinal
+      (fun p f => { p with ordinal := f }) ∧
+    SetterSpec SET_RANGE_day.1 SET_RANGE_day.2 (·.day) id Parsed.set_day (fun p f => { p with day := f }) ∧
+    SetterSpec SET_RANGE_hour12.1 SET_RANGE_hour12.2 (·.hour_mod_12) (fun v => v % 12) Parsed.set_hour12
+      (fun p f => { p with hour_mod_12 := f }) ∧
+    SetterSpec SET_RANGE_minute.1 SET_RANGE_minute.2 (·.minute) id Parsed.set_minute
+      (fun p f => { p with minute := f }) ∧
+    SetterSpec SET_RANGE_second.1 SET_RANGE_second.2 (·.second) id Parsed.set_second
+      (fun p f => { p with second := f }) ∧
+    SetterSpec SET_RANGE_nanosecond.1 SET_RANGE_nanosecond.2 (·.nanosecond) id Parsed.set_nanosecond
+      (fun p f => { p with nanosecond := f }) ∧
+    SetterSpec SET_RANGE_offset.1 SET_RANGE_offset.2 (·.offset) id Parsed.set_offset
+      (fun p f => { p with offset := f }) := setters_spec
+
+/-- the two remaining integer setters: `set_timestamp` accepts every `i64` (its extracted range is all
+of `i64`); `set_hour` accepts exactly its extracted range and stores `v / 12`, `v % 12` — accepted
+iff both halves are unset or already hold those values -/
+theorem setter_ranges_timestamp_hour (p p1 : Parsed) (v : Int) :
+    (SET_RANGE_timestamp = (-9223372036854775808, 9223372036854775807) ∧
+     ((p.timestamp = none ∨ p.timestamp = some v) → p.set_timestamp v = .ok { p with timestamp := some v }) ∧
+     (¬ (p.timestamp = none ∨ p.timestamp = some v) → p.set_timestamp v = .error .impossible)) ∧
+    (¬ (SET_RANGE_hour.1 ≤ v ∧ v ≤ SET_RANGE_hour.2) → p.set_hour v = .error .outOfRange) ∧
+    (p.set_hour v = .ok p1 ↔ (SET_RANGE_hour.1 ≤ v ∧ v ≤ SET_RANGE_hour.2) ∧
+      (p.hour_div_12 = none ∨ p.hour_div_12 = some (v / 12)) ∧
+      (p.hour_mod_12 = none ∨ p.hour_mod_12 = some (v % 12)) ∧
+      p1 = { p with hour_div_12 := some (v / 12), hour_mod_12 := some (v % 12) }) :=
+  ⟨set_timestamp_spec p v, (set_hour_spec p p1 v).1, (set_hour_spec p p1 v).2⟩
+
+/-- non-vacuity and the extremes: the extracted ranges are the documented ones; `i64::MIN`, `i64::MAX`
+and `u32::MAX + 1` are OUT_OF_RANGE for a `u32` field, `i32::MAX + 1` for an `i32` field; a negative
+year is accepted, a negative century is not -/
+example :
+    SET_RANGE_month = (1, 12) ∧ SET_RANGE_second = (0, 60) ∧ SET_RANGE_year_div_100 = (0, 2147483647) ∧
+    Parsed.new.set_month (-9223372036854775808) = .error .outOfRange ∧
+    Parsed.new.set_month 9223372036854775807 = .error .outOfRange ∧
+    Parsed.new.set_month 4294967297 = .error .outOfRange ∧
+    Parsed.new.set_year 2147483648 = .error .outOfRange ∧
+    Parsed.new.set_year (-2147483648) = .ok { year := some (-2147483648) } ∧
+    Parsed.new.set_year_div_100 (-1) = .error .outOfRange ∧
+    Parsed.new.set_hour12 12 = .ok { hour_mod_12 := some 0 } ∧
+    Parsed.new.set_timestamp (-9223372036854775808) = .ok { timestamp := some (-9223372036854775808) } := by
+  decide
+
+/-- cross-setter consistency of the hour fields: after `set_hour h` succeeded, `set_ampm pm` is
+accepted iff `pm ↔ 12 ≤ h` and `set_hour12 v` iff `v ∈ 1..=12` is the 12-hour-clock reading of `h`
+(`v % 12 = h % 12`) — and an accepted call leaves the record unchanged; the two stored halves are
+`h / 12` and `h % 12`, which denote `h` -/
+theorem hour_setters_consistent (p p1 : Parsed) (h : Int) (hs : p.set_hour h = .ok p1) :
+    (∀ pm : Bool, (∃ p2, p1.set_ampm pm = .ok p2) ↔ (pm = true ↔ 12 ≤ h)) ∧
+    (∀ pm p2, p1.set_ampm pm = .ok p2 → p2 = p1) ∧
+    (∀ v : Int, (∃ p2, p1.set_hour12 v = .ok p2) ↔ (1 ≤ v ∧ v ≤ 12 ∧ v % 12 = h % 12)) ∧
+    (∀ v p2, p1.set_hour12 v = .ok p2 → p2 = p1) ∧
+    p1.hour_div_12 = some (h / 12) ∧ p1.hour_mod_12 = some (h % 12) ∧
+    hourOfFields (h / 12) (h % 12) = h := hour_cross p p1 h hs
+
+/-- the converse order: after `set_ampm pm` and `set_hour12 v` succeeded, `set_hour h` is accepted iff
+`h = (if pm then 12 else 0) + v % 12`, and then leaves the record unchanged -/
+theorem hour_setters_consistent_conv (p p1 p2 : Parsed) (pm : Bool) (v : Int)
+    (h1 : p.set_ampm pm = .ok p1) (h2 : p1.set_hour12 v = .ok p2) (h : Int) :
+    ((∃ p3, p2.set_hour h = .ok p3) ↔ h = (if pm then 12 else 0) + v % 12) ∧
+    (∀ p3, p2.set_hour h = .ok p3 → p3 = p2) := hour_cross_conv p p1 p2 pm v h1 h2 h
+
+/-- non-vacuity: 23 = pm + 11 o'clock; 12 o'clock pm is hour 12; 12 o'clock am is hour 0 -/
+example :
+    (∃ p1, Parsed.new.set_hour 23 = .ok p1 ∧ p1.set_ampm true = .ok p1 ∧ p1.set_hour12 11 = .ok p1 ∧
+      p1.set_ampm false = .error .impossible ∧ p1.set_hour12 12 = .error .impossible) ∧
+    (∃ p1 p2, Parsed.new.set_ampm true = .ok p1 ∧ p1.set_hour12 12 = .ok p2 ∧ p2.set_hour 12 = .ok p2 ∧
+      p2.set_hour 0 = .error .impossible) :=
+  ⟨⟨{ hour_div_12 := some 1, hour_mod_12 := some 11 }, rfl, rfl, rfl, rfl, rfl⟩,
+   ⟨{ hour_div_12 := some 1 }, { hour_div_12 := some 1, hour_mod_12 := some 0 }, rfl, rfl, rfl, rfl⟩⟩
+
+/-- `Parsed::new()` / `Parsed::default()` (no field set) is NOT_ENOUGH for every resolver: every offset
+argument, every fixed zone, every step zone -/
+theorem new_resolves_not_enough (off zone : Int) (z : StepZone) :
+    Parsed.to_naive_date Parsed.new = .ok (.error .notEnough) ∧
+    Parsed.to_naive_time Parsed.new = .error .notEnough ∧
+    Parsed.to_naive_datetime_with_offset Parsed.new off = .ok (.error .notEnough) ∧
+    Parsed.to_fixed_offset Parsed.new = .error .notEnough ∧
+    Parsed.to_datetime Parsed.new = .ok (.error .notEnough) ∧
+    Parsed.to_datetime_with_timezone Parsed.new zone = .ok (.error .notEnough) ∧
+    Parsed.to_datetime_with_step_zone Parsed.new z = .ok (.error .notEnough) :=
+  new_not_enough off zone z
+
+/-- the quarter field is a pure cross-check, EVERY record: resolve the record without its quarter
+field; an error is passed on unchanged (a quarter never makes a set sufficient and never changes
+the kind); a resolved day `(Y, o)` is returned iff the quarter field — if supplied — is the quarter
+of its month, otherwise IMPOSSIBLE -/
+theorem date_quarter (p : Parsed) (hp : InType p) :
+    ∃ r0, Parsed.to_naive_date { p with quarter := none } = .ok r0 ∧
+      (∀ e, r0 = .error e → Parsed.to_naive_date p = .ok (.error e)) ∧
+      (∀ Y o, VD Y o → r0 = .ok (dateOfYo Y o) →
+        (optIs p.quarter (quarterOfMonth (monthOfYo Y o)) →
+          Parsed.to_naive_date p = .ok (.ok (dateOfYo Y o))) ∧
+        (¬ optIs p.quarter (quarterOfMonth (monthOfYo Y o)) →
+          Parsed.to_naive_date p = .ok (.error .impossible))) := by
+  have hp0 : InType { p with quarter := none } := by
+    obtain ⟨h1, h2, h3, h4, h5, h6, _, h8⟩ := hp
+    exact ⟨h1, h2, h3, h4, h5, h6, (fun x h => by cases h), h8⟩
+  obtain ⟨r0, hr0, _⟩ := date_main _ hp0
+  refine ⟨r0, hr0, fun e he => ?_, fun Y o hvd hd => ?_⟩
+  · rw [date_quarter_factor, hr0, he]; rfl
+  · obtain ⟨_, _, _, hm, _⟩ := vd_fields Y o hvd
+    obtain ⟨_, _, hval, _⟩ := month_day_spec Y o hvd.2.2.1 hvd.2.2.2
+    have hm1 : 1 ≤ monthOfYo Y o := by
+      unfold validYmd at hval; simp at hval; omega
+    rw [date_quarter_factor, hr0, hd]
+    simp only [Parsed.RP.bind]
+    cases hq : p.quarter with
+    | none => exact ⟨fun _ => rfl, fun h => absurd (fun x hx => by cases hx) h⟩
+    | some q =>
+      simp only [hm, quarter_eq _ hm1]
+      constructor
+      · intro h
+        rw [if_neg (by intro hne; exact hne (h q rfl))]
+      · intro h
+        rw [if_pos (by intro he; apply h; intro x hx; cases hx; exact he)]
+
+/-- non-vacuity: year + quarter alone is NOT_ENOUGH (the quarter is no date combination); a matching
+and a contradicting quarter beside a full date -/
+example :
+    Parsed.to_naive_date { year := some 2024, quarter := some 1 } = .ok (.error .notEnough) ∧
+    Parsed.to_naive_date { year := some 2024, ordinal := some 91, quarter := some 1 }
+      = .ok (.ok (dateOfYo 2024 91)) ∧
+    Parsed.to_naive_date { year := some 2024, ordinal := some 92, quarter := some 1 }
+      = .ok (.error .impossible) := by
+  decide +kernel
+
+/-- the year groups and NEGATIVE years: a negative year has neither century nor two-digit year, so a
+negative full year beside a century or two-digit-year field is refused, and so is a negative century
+(IMPOSSIBLE; OUT_OF_RANGE when the two-digit year is outside 0..=99 — that is checked first); a full
+year alone is taken as it is, negative or not.  (In `date_sound` the same rule is the clause `centIs`:
+a supplied century / two-digit year agrees only with a non-negative year.) -/
+theorem year_group_negative (y qv rv : Int) (q r : Option Int) :
+    (y < 0 → (q ≠ none ∨ r ≠ none) →
+      Parsed.resolve_year (some y) q r = .error (if Parsed.modOk r then .impossible else .outOfRange)) ∧
+    (qv < 0 →
+      Parsed.resolve_year none (some qv) (some rv) =
+        .error (if 0 ≤ rv ∧ rv ≤ 99 then .impossible else .outOfRange)) ∧
+    (0 ≤ y → Parsed.resolve_year (some y) none none = .ok (some y)) ∧
+    (y < 0 → Parsed.resolve_year (some y) none none = .ok (some y)) :=
+  resolve_year_negative y qv rv q r
+
+/-- non-vacuity at the resolver: year −1 with ordinal resolves; with a two-digit year 99 or century 0
+beside it IMPOSSIBLE (−1 is not 0·100 + 99) -/
+example :
+    Parsed.to_naive_date { year := some (-1), ordinal := some 1 } = .ok (.ok (dateOfYo (-1) 1)) ∧
+    Parsed.to_naive_date { year := some (-1), year_mod_100 := some 99, ordinal := some 1 }
+      = .ok (.error .impossible) ∧
+    Parsed.to_naive_date { year := some (-1), year_div_100 := some 0, ordinal := some 1 }
+      = .ok (.error .impossible) ∧
+    Parsed.to_naive_date { year_div_100 := some (-1), year_mod_100 := some 99, ordinal := some 1 }
+      = .ok (.error .impossible) := by
   decide +kernel
 
 /-- no resolver panics: for every record of in-type field values, every `i32` offset argument and
